@@ -783,6 +783,70 @@ theorem fastx_sniff_fastq_source (c : Nat) (sched : Nat → Nat) (hc : 1 ≤ c) 
   | nil => exact absurd rfl hne
   | cons r rs => simp [writeFastq, writeFastqRec, sniff, GenSrcFastx.toKind]
 
+open RbV.Thm.GenSrcFastx (readExactOp chainOp eitherSrcNext totalNext wrapFa wrapFq eitherAfter) in
+/-- **`EitherRecords` end to end, FASTA** (source text to source text): the translated `EitherRecords::next` — sniffing through
+the translated `initialize` / `get_kind`, then dispatching to the translated `fasta::Records::next` on a `BufReader` over the
+chained reader (schedule `chainSched sched`) — drained over the translated FASTA writer's output for a non-empty list of
+valid text records yields exactly the records, each as `Ok(EitherRecord::FASTA(_))`. -/
+theorem fastx_either_fasta_roundtrip_source (c : Nat) (sched : Nat → Nat) (hc : 1 ≤ c) (hs : Admissible sched)
+    (wrap : Option Nat) (recs : List FaRec) (hne : recs ≠ []) (hv : ∀ r ∈ recs, ValidFa r) (ht : ∀ r ∈ recs, TextFa r)
+    (hw : ∀ w, wrap = some w → 1 ≤ w) (fuel n : Nat)
+    (hf : (writeFasta wrap recs).length < fuel) (hn : (writeFasta wrap recs).length + 2 ≤ n)
+    {β δ ε : Type} (fq : Bytes → β) (fqN : β → Option (Except ε δ) × β) :
+    ∃ file, recs.foldlM (srcWriteFasta wrap) [] = Res.ok file ∧
+      Rs.drain (eitherSrcNext (fun f => (init f, ([] : Bytes), false)) fq
+          (totalNext (GenSrcFasta.srcNext c (chainSched sched) fuel)) fqN) n (none, some file) =
+        Res.ok (recs.map fun r => (.ok (.inl (GenSrcFasta.toRec r)) : Except (IoErr ⊕ ε) (Gen.SrcFasta.Record ⊕ δ))) := by
+  obtain ⟨file, h1, hk, h2⟩ := fastx_sniff_fasta_source c sched hc hs wrap recs hne hv ht hw fuel n hf hn
+  refine ⟨file, h1, ?_⟩
+  have hsn : sniff file = some .fasta := by
+    have := fastx_sniff_source_eq_model file
+    rw [hk] at this
+    cases file with
+    | nil => simp at this
+    | cons b r =>
+      cases h : sniff (b :: r) with
+      | none => simp [h] at this
+      | some k => cases k <;> simp_all [GenSrcFastx.toKind]
+  rw [GenSrcFastx.drain_either_fresh _ fq _ fqN file .fasta hsn n]
+  have hafter : (eitherAfter (fun f => (init f, ([] : Bytes), false)) fq file).2 = some (.inl (init file, [], false)) := by
+    cases file with
+    | nil => simp [sniff] at hsn
+    | cons b r => simp [eitherAfter, hsn]
+  rw [hafter, GenSrcFastx.drain_either_fasta _ fq _ fqN n _ _ h2]
+  simp [wrapFa, Except.map, Except.mapError, Function.comp_def]
+
+open RbV.Thm.GenSrcFastx (readExactOp chainOp eitherSrcNext totalNext wrapFa wrapFq eitherAfter) in
+/-- **`EitherRecords` end to end, FASTQ** -/
+theorem fastx_either_fastq_roundtrip_source (c : Nat) (sched : Nat → Nat) (hc : 1 ≤ c) (hs : Admissible sched)
+    (recs : List FqRec) (hne : recs ≠ []) (hv : ∀ r ∈ recs, ValidFq r) (ht : ∀ r ∈ recs, TextFq r) (lb : Bytes)
+    (fuel n : Nat) (hf : (writeFastq recs).length < fuel) (h31 : (writeFastq recs).length < 2 ^ 31)
+    (hn : (writeFastq recs).length + 1 ≤ n)
+    {α γ : Type} (fa : Bytes → α) (faN : α → Option (Except IoErr γ) × α) :
+    ∃ file, recs.foldlM srcWriteFastq [] = Res.ok file ∧
+      Rs.drain (eitherSrcNext fa (fun f => (init f, lb)) faN
+          (totalNext (GenSrcFastq.srcNext c (chainSched sched) fuel))) n (none, some file) =
+        Res.ok (recs.map fun r =>
+          (.ok (.inr (GenSrcFastq.toRec r)) : Except (IoErr ⊕ Gen.SrcFastq.Error) (γ ⊕ Gen.SrcFastq.Record))) := by
+  obtain ⟨file, h1, hk, h2⟩ := fastx_sniff_fastq_source c sched hc hs recs hne hv ht lb fuel n hf h31 hn
+  refine ⟨file, h1, ?_⟩
+  have hsn : sniff file = some .fastq := by
+    have := fastx_sniff_source_eq_model file
+    rw [hk] at this
+    cases file with
+    | nil => simp at this
+    | cons b r =>
+      cases h : sniff (b :: r) with
+      | none => simp [h] at this
+      | some k => cases k <;> simp_all [GenSrcFastx.toKind]
+  rw [GenSrcFastx.drain_either_fresh fa _ faN _ file .fastq hsn n]
+  have hafter : (eitherAfter fa (fun f => (init f, lb)) file).2 = some (.inr (init file, lb)) := by
+    cases file with
+    | nil => simp [sniff] at hsn
+    | cons b r => simp [eitherAfter, hsn]
+  rw [hafter, GenSrcFastx.drain_either_fastq fa _ faN _ n _ _ h2]
+  simp [wrapFq, Except.map, Except.mapError, Function.comp_def]
+
 end Source
 
 /-! ## Non-vacuity -/
@@ -888,6 +952,15 @@ example : ∃ file, exFq.foldlM srcWriteFastq [] = Res.ok file ∧
       Res.ok (exFq.map fun r => .ok (GenSrcFastq.toRec r)) :=
   fastx_sniff_fastq_source 4 _ (by decide) (cyclic_admissible _) exFq (by decide) exFq_valid (by decide) [] 100 100
     (by decide) (by decide) (by decide)
+
+open RbV.Rs RbV.BufLines in
+/-- `EitherRecords` over the translated FASTQ writer's output, drained (the FASTA side is irrelevant: any `fa`, `faN`) -/
+example : ∃ file, exFq.foldlM srcWriteFastq [] = Res.ok file ∧
+    Rs.drain (GenSrcFastx.eitherSrcNext (fun _ => ()) (fun f => (init f, ([] : Bytes))) (fun u => ((none : Option (Except IoErr Unit)), u))
+        (GenSrcFastx.totalNext (GenSrcFastq.srcNext 2 (chainSched (cyclic [1, 4])) 100))) 100 (none, some file) =
+      Res.ok (exFq.map fun r => .ok (.inr (GenSrcFastq.toRec r))) :=
+  fastx_either_fastq_roundtrip_source 2 _ (by decide) (cyclic_admissible _) exFq (by decide) exFq_valid (by decide) [] 100 100
+    (by decide) (by decide) (by decide) _ _
 
 /-- an illegal start character and the empty input -/
 example : Gen.SrcFastx.getKind GenSrcFastx.readExactOp GenSrcFastx.chainOp [65, 10] =
